@@ -596,9 +596,107 @@ def t_tls13_schedule_live(a, seed, tier):
                  R.hkdf_expand_label(master, b"res master", t_cfin, hl, h))
 
 
+def t_tls12_master_live(a, seed, tier):
+    """Master secret of a live SSLv3..TLS 1.2 handshake against RFC 5246 8.1
+    / RFC 7627 4, computed from the premaster secret the client handed to its
+    key derivation and the transcript really exchanged: with and without
+    extended master secret, with and without client authentication (the
+    session hash ends at ClientKeyExchange, CertificateVerify is not in
+    it), RSA and ECDHE key exchange, both PRF hashes."""
+    from .. import scen as S
+    from ..puppet import Puppet
+    from ..world import SEAMS, Pair, World
+    cases = []
+    for v in ((3, 1), (3, 2), (3, 3)):
+        suites = [("rsa", CS.TLS_RSA_WITH_AES_128_CBC_SHA),
+                  ("ecdhe", CS.TLS_ECDHE_RSA_WITH_AES_128_CBC_SHA)]
+        if v == (3, 3):
+            suites.append(("ecdhe-sha384",
+                           CS.TLS_ECDHE_RSA_WITH_AES_256_GCM_SHA384))
+        for (sn, suite) in suites:
+            for ccred in (None, "c_rsa", "c_ecdsa"):
+                for ems in (True, False):
+                    cases.append((v, sn, suite, ccred, ems))
+    for (v, sn, suite, ccred, ems) in cases:
+        label = "%s/%s/%s/%s" % (S.VNAME[v], sn, ccred or "noauth",
+                                 "ems" if ems else "noems")
+        sc = S.Scen("c09/ms-" + label, version=v, suite=suite, cred="rsa",
+                    client_cred=ccred, req_cert=bool(ccred),
+                    cset={"useExtendedMasterSecret": ems})
+        SEAMS.reset(seed, sc.name)
+        pair = Pair(World())
+        caps = []
+
+        class AllCap(dict):
+            def __init__(self, who):
+                dict.__init__(self)
+                self.who = who
+
+            def get(self, i, default=None):
+                who = self.who
+
+                def f(d):
+                    caps.append((who, bytes(d)))
+                    return None
+                return ("mutate", f)
+        pc = Puppet(pair.c, {})
+        pc.script = AllCap("C")
+        ps = Puppet(pair.s, {})
+        ps.script = AllCap("S")
+        pms = {}
+        orig_cf = pair.c._clientFinished
+
+        def cf(premasterSecret, *args, **kw):
+            pms["C"] = bytes(premasterSecret)
+            return orig_cf(premasterSecret, *args, **kw)
+        pair.c._clientFinished = cf
+        SEAMS.current = "C"
+        cg = sc.client_gen(pair.c)
+        SEAMS.current = "S"
+        sg = sc.server_gen(pair.s)
+        SEAMS.current = "main"
+        out = pair.handshake(cg, sg, max_steps=60000)
+        if out["C"].status != "ok" or out["S"].status != "ok" or \
+                "C" not in pms:
+            a.eq("tls12-live-handshake", [label], b"failed", b"ok")
+            continue
+
+        def is_hs(m):
+            return len(m) >= 4 and m[0] in (1, 2, 11, 12, 13, 14, 15, 16,
+                                            20, 4, 22) and \
+                int.from_bytes(m[1:4], "big") == len(m) - 4
+        msgs = [m for (_, m) in caps if is_hs(m)]
+        cke = [i for i, m in enumerate(msgs) if m[0] == 16][0]
+        upto_cke = b"".join(msgs[:cke + 1])
+        info = S.ALL_INFOS[suite]
+        h = info.prf if v >= (3, 3) else None
+        if v >= (3, 3):
+            sh = hashlib.new(h, upto_cke).digest()
+
+            def prf(sec, lab, sd, n):
+                return R.prf_tls12(sec, lab, sd, n, h)
+        else:
+            sh = hashlib.md5(upto_cke).digest() + \
+                hashlib.sha1(upto_cke).digest()
+
+            def prf(sec, lab, sd, n):
+                return R.prf_tls10(sec, lab, sd, n)
+        if ems:
+            want = prf(pms["C"], b"extended master secret", sh, 48)
+        else:
+            want = prf(pms["C"], b"master secret",
+                       bytes(pair.c._clientRandom) +
+                       bytes(pair.c._serverRandom), 48)
+        a.eq("tls12-live-ems-negotiated", [label],
+             bytes([bool(pair.c.extendedMasterSecret)]), bytes([ems]))
+        for who, ep in (("client", pair.c), ("server", pair.s)):
+            a.eq("tls12-live-master-secret", [label, who],
+                 ep.session.masterSecret, want)
+
+
 GROUPS = [t_block, t_cbc, t_stream, t_chacha_poly, t_hmac, t_prf, t_hkdf,
           t_calc_key, t_exporter, t_tls13_record_keys,
-          t_tls13_schedule_live]
+          t_tls13_schedule_live, t_tls12_master_live]
 
 
 def run_group(item):
